@@ -138,7 +138,7 @@ var famName = NewFamily("C15.name", runName)
 
 func init() {
 	register("C15", "exploration", func(c *Ctx) {
-		c.Rule("exhaustive: all 2^len letter-case variants of the 19 transform and 9 entropy names (GetType equality, GetName round trip); all chains of length <= 3 over the 19 tokens (upper and lower case; length 4 over a 12-token subset) -> GetName(GetType(x)) is the canonical chain with NONE removed; through the real Writer/Reader: every name x {lower, alternating, capitalised} spelling, as header and headerless streams, on data where the codec variants differ -> the stream is byte-identical to the canonical spelling's and decodes to the input when the reader is told either spelling. Non-trivial = spelling differs from the canonical one")
+		c.Rule("exhaustive: all 2^len letter-case variants of the 19 transform and 9 entropy names (GetType equality, GetName round trip); all chains of length <= 3 over the 19 tokens (upper and lower case; length 4 over a 12-token subset) -> GetName(GetType(x)) is the canonical chain with NONE removed; through the real Writer/Reader: every name x {lower, alternating, capitalised} spelling, as header and headerless streams, on data where the codec variants differ; every transform at every one of the 8 positions of a full 8-stage chain -> the stream is byte-identical to the canonical spelling's and decodes to the input when the reader is told either spelling. Non-trivial = spelling differs from the canonical one")
 		famName.Each(c, 0, func(emit func(nameCase)) {
 			variants := func(name string, f func(v string)) {
 				n := len(name)
@@ -210,6 +210,29 @@ func init() {
 						for _, sp := range spellings(e) {
 							emit(nameCase{Kind: kind, Name: sp, Canon: e, Other: o, IsEnt: true})
 						}
+					}
+				}
+				// chains of exactly 8 effective transforms with every transform at every position (the
+				// 48-bit packed type has 8 slots; variant selection looks for names inside the chain string)
+				fill := []string{"PACK", "MM", "EXE", "DNA", "UTF", "ZRLT", "RLT"}
+				for _, t := range allTransforms[1:] {
+					for pos := 0; pos < 8; pos++ {
+						var ch []string
+						fi := 0
+						for k := 0; k < 8; k++ {
+							if k == pos {
+								ch = append(ch, t)
+								continue
+							}
+							f := fill[fi%len(fill)]
+							fi++
+							if f == t {
+								f = "LZP"
+							}
+							ch = append(ch, f)
+						}
+						chain := strings.Join(ch, "+")
+						emit(nameCase{Kind: kind, Name: strings.ToLower(chain), Canon: chain, Other: "NONE"})
 					}
 				}
 				// chains in mixed case, and chains with NONE elements (canonical form drops them)
